@@ -40,8 +40,9 @@ class _Base:
         self.observations.append((name, value))
 
     def expect(self, cond, prop, kind, msg="", **data):
-        """oracle assertion: `cond` is a plain bool (deciding it may have forked the path)"""
-        if not cond:
+        """oracle assertion: `cond` is a plain bool (deciding it may have forked the path); assertions of a property that is
+        not being decided in this run are not enforced (one harness serves several properties)"""
+        if not cond and prop in self.props:
             self.fail(prop, kind, msg, **data)
 
 
